@@ -27,6 +27,11 @@ CHECKS = {
     technique="z3 equivalence (QF_LIA+Bool) of the delta polynomial returned by the real wicks() with a bit-string vacuum-expectation circuit whose orbital positions are symbolic; plus z3 (QF_NRA) validation of wicks() on tensor x operator products against concrete determinant sums with symbolic tensor entries",
     text="For every enumerated operator string (all of length 2, sampled/exhaustive length 4, sampled 3/5/6/8, 0-2 normal-ordered groups) z3 shows that wicks' result equals the determinant-space vev for every assignment of orbitals in a 2o2v (thorough 3o3v) model; contracted products incl. delta evaluation and block rules are validated against sum_assign prod T * vev for all tensor values.",
     note="Bounded: string shapes enumerated (not solver variables), model <=3o3v, spin-labelled operators not explored (documented refusal). Trusted: sympy's construction of NO objects, z3, vlib/detref.py (independent of adcgen's Wick code). sat models are replayed on concrete bit strings."),
+ "C02": dict(
+    level=TV, design="2/C02", engine="detref",
+    technique="z3 polynomial-identity check of each derived ground-state expression (energy, MP amplitude, RE residual, 1-/2-particle expectation value) against explicit RSPT on occupation bit strings with symbolic integrals, orbital energies and lower-order amplitudes; CrossHair on gen_term_orders",
+    text="Each expression returned by the real GroundState API is shown equal, for all integrals / orbital energies / lower-order amplitudes and all index assignments of a 2o2v (thorough: up to 3o3v) model, to the quantity computed by explicit determinant-space RSPT; orders <=2 quick, <=3 (energy 4) thorough; mp and re; with/without first-order singles.",
+    note="Induction over the order: lower-order wavefunctions are free amplitude unknowns in adcgen's documented convention. Canonical orbitals for MP amplitudes; inverse orbital-energy forms are shared free unknowns (sound). Quadruples (need 4o4v) outside."),
 }
 NA_REASON = "check not built yet in this round (planned, see DESIGN.md section 2)"
 
